@@ -206,6 +206,14 @@ def run(ctx):
                 if isinstance(g3, str) or not np.array_equal(g3, arr(series[0])):
                     res.violations.append({"clause": "a set of identical series is a fixed point", "series": same,
                                            "use_c": uc, "got": g3 if isinstance(g3, str) else g3.tolist()})
+        # no step requested: the loop returns the initial average
+        if k % 9 == 0:
+            for uc in (False, True):
+                z = call(lambda: dtw_barycenter.dba_loop(data, c=c_arr.copy(), max_it=0, mask=npmask, use_c=uc, **kw))
+                if isinstance(z, str) or z.shape != c_arr.shape or not np.array_equal(z, c_arr):
+                    res.violations.append({"clause": "the loop performs at most the requested number of steps: max_it=0 "
+                                                     "returns the initial average", "use_c": uc,
+                                           "got": z if isinstance(z, str) else z.tolist(), "c": c0})
         # loop bound
         if k % 7 == 0:
             for uc in (False, True):
